@@ -430,13 +430,84 @@ def run_history(res, exe, rng, first):
         sim.close()
 
 
+def stored_configuration(res, exe, rng, idx):
+    """1005h / 1006h live in a parameter group: what the node does after a power cycle is what the stored (and readable) 1005h / 1006h
+    say - producer on or off, its period, the identifier that is recognised as SYNC - exactly as after an NMT reset communication."""
+    nid = rng.choice([1, 9])
+    freq = 1000
+    comp_id = [0x80, 0x40000080, 0x80, 0x40000080][idx % 4]                   # compile-time values (RAM initialisation)
+    stor_id = [0x40000080, 0x80, 0x85, 0x40000090][idx % 4]                   # values written and stored before the power cycle
+    comp_cyc, stor_cyc = rng.choice([5000, 10000, 20000]), rng.choice([3000, 7000, 12000])
+    cfg = Config(nodeid=nid, freq=freq, tmrnum=8)
+    gen.add_mandatory(cfg, hb=0, ssdo=1, ssdo_rw=False, with1005=False)
+    ram = comp_id.to_bytes(4, "little") + comp_cyc.to_bytes(4, "little")
+    cfg.paras.append((0, 0, 8, 2, 1, False, ram, None))                      # one group, reset type communication, enabled
+    cfg.add(S.Obj(0x1005, 0, RW, "syncid", "G", 0, 0, 4))
+    cfg.add(S.Obj(0x1006, 0, RW, "synccycle", "G", 0, 4, 4))
+    cfg.add(var(0x1010, 0, S.D | R, 1, 1, "parastore"))
+    cfg.add(S.Obj(0x1010, 1, RW, "parastore", "P", 0))
+    cfg.add(var(0x2001, 0, RW | P, 1, 0x42))
+    gen.add_tpdo(cfg, 0, 0x40000180, 1, 0, 0, [gen.maplink(0x2001, 0, 8)])
+    cfg.nvm = (16, ram + bytes([0xFF]) * 8)                                   # a device whose defaults have been stored once
+    cfg.finalize()
+    sim = S.Sim(exe, cfg)
+    what = "node %d: compile-time 1005h=%x 1006h=%d, stored 1005h=%x 1006h=%d" % (nid, comp_id, comp_cyc, stor_id, stor_cyc)
+    try:
+        sim.cmd("restart"); sim.cmd("start")
+        # reconfigure (producer off first: the identifier cannot change while producing), store, power cycle
+        for (i_, v_) in ((0x1005, comp_id & ~0x40000000), (0x1006, stor_cyc), (0x1005, stor_id & ~0x40000000), (0x1005, stor_id)):
+            code, _ = S.sdo_write(sim, nid, i_, 0, v_, 4)
+            if code is not None:
+                res.inconclusive.append("stored-configuration set-up refused: %04x = %x -> %r" % (i_, v_, code)); return
+        code, _ = S.sdo_write(sim, nid, 0x1010, 1, 0x65766173, 4)
+        if code is not None:
+            res.inconclusive.append("stored-configuration: 'save' refused %r" % code); return
+        for phase in ("power cycle", "reset communication"):
+            if phase == "power cycle":
+                sim.cmd("restart"); sim.cmd("start")
+            else:
+                sim.rx(0, bytes([130, nid]))
+            t0 = sim.tick
+            v5, _ = S.sdo_read(sim, nid, 0x1005, 0)
+            v6, _ = S.sdo_read(sim, nid, 0x1006, 0)
+            if v5 != stor_id or v6 != stor_cyc:
+                res.violation("c16/stored/values", "%s: after the %s 1005h=%r 1006h=%r" % (what, phase, v5, v6), sim=sim); return
+            sim.rx(0, bytes([1, nid]))
+            n = 10
+            period = stor_cyc // 1000
+            evs = sim.cmd("tick %d" % (n * period))
+            sid = stor_id & 0x7FF
+            got = [t - t0 for (t, cid, dlc, d, f) in S.txs(evs) if cid == sid]
+            want = [period * k for k in range(1, n + 1)] if stor_id & 0x40000000 else []
+            res.evals += 1
+            if got != want:
+                res.violation("c16/stored/production", "%s: after the %s SYNC frames at ticks %r, reference %r (1005h reads %x)" % (what, phase, got[:12], want[:12], v5), sim=sim, expected=want, observed=got)
+                return
+            # consumer side: exactly the stored identifier is a SYNC (type 1 TPDO answers every SYNC)
+            for cid in sorted({0x80, 0x85, 0x90, sid}):
+                evs = sim.rx(cid, b"")
+                tp = [1 for (t, c, dlc, d, f) in S.txs(evs) if c == 0x180 + nid]
+                if len(tp) != (1 if cid == sid else 0):
+                    res.violation("c16/stored/consumption", "%s: after the %s a frame %xh triggered %d synchronous TPDOs (SYNC identifier stored and readable: %xh)" % (what, phase, cid, len(tp), sid), sim=sim)
+                    return
+        res.nt("stored", idx, nid, comp_cyc, stor_cyc)
+        res.counters["stored_configurations"] += 1
+    except S.SimDied as e:
+        res.violation("c16/crash/" + e.signature, "executor died: " + e.signature, sim=sim, detail=e.detail[-2000:])
+    finally:
+        sim.close()
+
+
 def plan(tier, seed):
     q = tier == "quick"
-    return [("hist", i, 40 if q else 400) for i in range(48 if q else 300)]
+    return [("hist", i, 40 if q else 400) for i in range(48 if q else 300)] + [("stored", i, 0) for i in range(8 if q else 32)]
 
 
 def work(item, ctx):
     res = F.Res()
+    if item[0] == "stored":
+        stored_configuration(res, ctx["exes"]["asan"], random.Random(F.seed_for(ctx["seed"], "C16stored", item[1])), item[1])
+        return res
     for h in range(item[2]):
         rng = random.Random(F.seed_for(ctx["seed"], "C16", item[1], h))
         run_history(res, ctx["exes"]["asan"], rng, item[1] == 0 and h == 0)
